@@ -4,6 +4,7 @@ from ..runner import Case
 from .. import gen, core
 
 ID = "C07"
+STATEFUL = True     # some blocks keep a live object across lines
 LEAN_TARGETS = ["Cider.Props.C07", "Cider.Props.C02Tie"]
 P = "Cider.C07."
 THEOREMS = ["Cider.C02.gen_charge_eq_published"] + [P + t for t in (
@@ -48,10 +49,22 @@ def cases(rng, tier):
     # long sequences with > 127 / > 255 charged or neutral residues, net charge beyond +-127, length > 256
     for s in gen.large_regime():
         yield Case(["q scd " + s], {"kind": "large-regime"})
+    # objects that were handed back by the library's own moves / shuffles answer for the sequence they hold
+    for l in core.childq_cases(rng, 40 if tier == "quick" else 400, ["scd"]):
+        yield Case([l], {"kind": "object-from-move"})
+    # SCD asked AFTER other public calls on the same object
+    for c in gen.after_calls_cases(rng, 16 if tier == "quick" else 120, ["scd"]):
+        yield c
 
 
 def judge(case, reals, gens, specs):
     out = []
+    if reals[0][0] == "childq":
+        ok_c, why = core.judge_childq(reals[0])
+        return [] if ok_c else [("violation", 0, why)]
+    if case.tags.get("kind") == "after-other-calls":
+        from ..runner import default_judge
+        return default_judge(None, case, reals, gens, specs)      # (only the final scd line: judge_from)
     r, g, s = reals[0], gens[0], specs[0]
     if not core.match(r, s)[0]:
         out.append(("violation", 0, "get_SCD=%r but the Sawle-Ghosh value from lag sums is %s" % (r, s[:200])))
